@@ -72,3 +72,34 @@ Definition g_two_roots : hgraph :=
   mkHG [hn "Relu" [Some 0] [2]; hn "Neg" [Some 1] [3]; hn "Neg" [Some 0] [4]] [2; 3; 4] [] [].
 Definition s_two_roots : sigma :=
   mkSig [(0, 0); (1, 2)] [("x", BVal 0)] [(KOut 0 0, Some 2); (KOut 1 0, Some 4)].
+
+(* r = Relu(x); a = Abs(r); n = Neg(a); z = Add(n, r): an instance of p_or through the SECOND alternative *)
+Definition g_or_second : hgraph :=
+  mkHG [hn "Relu" [Some 0] [1]; hn "Abs" [Some 1] [2]; hn "Neg" [Some 2] [3]; hn "Add" [Some 3; Some 1] [4]] [4] [] [].
+
+(* attribute / optional-input / constant features in one node: Clip(x, 0.0 within 1e-3, optional hi)<axis = 1, mode = m> *)
+Definition p_feat : gpat :=
+  mkGP [mkNP (SExact "Clip") (SExact "") [("axis", APConst (AInt 1)); ("mode", APVar (Some "m") true)] false
+             [Some (PVar "x" false); Some (PConst 0 (CPScalar (Coq.QArith.QArith_base.Qmake 0 1) (Coq.QArith.QArith_base.Qmake 1 1000) (Coq.QArith.QArith_base.Qmake 0 1))); Some (PVar "hi" true)] false [None] true]
+       ["x"; "hi"] [POut 0 0].
+Definition g_feat : hgraph :=
+  mkHG [mkHN "Clip" "" [("axis", AInt 1)] [Some 0; Some 1] [2]] [2] [(1, CScalar (Coq.QArith.QArith_base.Qmake 0 1))] [].
+
+(* every repair but the attribute one *)
+Definition flags_attr_as_read := mkF true true true true false.
+(* two output nodes: return Relu(x), Neg<perm = 1>(x) -- a scalar constant attribute pattern *)
+Definition p_two_roots_attr : gpat :=
+  mkGP [un "Relu" (PVar "x" false);
+        mkNP (SExact "Neg") (SExact "") [("perm", APConst (AInt 1))] true [Some (PVar "x" false)] false [None] true]
+       ["x"] [POut 0 0; POut 1 0].
+(* the first Neg candidate carries a list-valued perm (as read: TypeError), the second is the instance *)
+Definition g_two_roots_attr : hgraph :=
+  mkHG [hn "Relu" [Some 0] [2]; mkHN "Neg" "" [("perm", AInts [1%Z; 0%Z])] [Some 1] [3];
+        mkHN "Neg" "" [("perm", AInt 1)] [Some 0] [4]] [2; 3; 4] [] [].
+Definition s_two_roots_attr : sigma :=
+  mkSig [(0, 0); (1, 2)] [("x", BVal 0)] [(KOut 0 0, Some 2); (KOut 1 0, Some 4)].
+(* one node: Neg<perm = 1>(x) against Neg<perm = [1, 0]> *)
+Definition p_attr_scalar : gpat :=
+  mkGP [mkNP (SExact "Neg") (SExact "") [("perm", APConst (AInt 1))] true [Some (PVar "x" false)] false [None] true]
+       ["x"] [POut 0 0].
+Definition g_attr_list : hgraph := mkHG [mkHN "Neg" "" [("perm", AInts [1%Z; 0%Z])] [Some 0] [1]] [1] [] [].
